@@ -136,6 +136,17 @@ class DeniedError(ResolverError):
     """The library documents subclassing ResolverError for expected errors."""
 
 
+class QuotaError(ResolverError):
+    """... a subclass with a constructor of its own (keyword-only, required):
+    such an exception cannot be re-created from its ``args`` (copy / pickle
+    fail), it can only be handed on as it is."""
+
+    def __init__(self, *, limit, used, message):
+        super().__init__(message)
+        self.limit = limit
+        self.used = used
+
+
 def _stamp_parse(v):
     if isinstance(v, str) and v.startswith("S:"):
         return int(v[2:])
@@ -212,6 +223,10 @@ def _finish(tname, fname, root, ctx, kwargs, tok):
         ctx.count("F1_resolver_error")
         if fault == "errs":
             ctx.count("F1_resolver_error_subclass")
+            if zlib.crc32(repr(path).encode()) & 1:
+                ctx.count("F1_subclass_with_own_constructor")
+                raise QuotaError(limit=10, used=11,
+                                 message=error_message(path))
             raise DeniedError(error_message(path))
         if fault == "errpp":
             # an error that already carries a path of its own (forwarded from
